@@ -934,7 +934,7 @@ fn degenerate_suite(run: &mut Run, rng: &mut Rng) {
     }
     run.count_n("emd-percent-triangle-triples", (k * k * k) as u64);
     // ---------- Learned histograms: Metric::emd, Sinkhorn (plan + band) and the greedy plan
-    for (mname, street) in [("line", Street::Turn), ("discrete", Street::Flop), ("one-far-pair", Street::Flop)] {
+    for (mname, street) in [("line", Street::Turn), ("discrete", Street::Flop), ("one-far-pair", Street::Flop), ("all-zero", Street::Turn)] {
         let uni: Vec<Abstraction> = (0..12).map(|i| Abstraction::from((street, i * 7 + 1))).collect();
         let mut raw = BTreeMap::new();
         for i in 0..12usize {
@@ -942,10 +942,33 @@ fn degenerate_suite(run: &mut Run, rng: &mut Rng) {
                 let dist: f32 = match mname {
                     "line" => (i - j) as f32,
                     "discrete" => 1.0,
+                    // every centroid coincides: the normalisation divides by max(MIN_POSITIVE, 0), all distances stay 0
+                    "all-zero" => 0.0,
                     _ => if (i, j) == (11, 0) { 1.0 } else { 1e-5 * (1.0 + (i + j) as f32) },
                 };
                 raw.insert(Pair::from((&uni[i], &uni[j])), dist);
             }
+        }
+        {
+            // Metric::from normalisation of this table through the model, and the range clause on its own
+            let entries: Vec<(Pair, f32)> = raw.iter().map(|(p, d)| (*p, *d)).collect();
+            let m = Metric::from(raw.clone());
+            let mut op = format!("mnorm {}", entries.len());
+            for (p, d) in &entries { let _ = write!(op, " {} {}", i64::from(*p) as u64, d.to_bits()); }
+            let es = m.verif_entries();
+            let mut ans = format!("{}", es.len());
+            for (p, d) in &es { let _ = write!(ans, " {} {}", i64::from(*p) as u64, fl(*d)); }
+            run.evaluations += 1;
+            run.line(&op, &ans);
+            run.spec_checked += 1;
+            let mx = es.iter().map(|e| e.1).fold(0f32, f32::max);
+            let want_max = if mname == "all-zero" { 0.0 } else { 1.0 };
+            if es.iter().any(|e| !(e.1 >= 0.0 && e.1 <= 1.0)) || (mx - want_max).abs() > 1e-6 {
+                run.fail("metric-not-normalised", &format!("degenerate metric {mname} over 12 buckets: Metric::from of {} distances", entries.len()),
+                    &format!("finite values in [0,1], max {want_max}"), &format!("{:?}", es.iter().map(|e| e.1).take(4).collect::<Vec<_>>()));
+            }
+            run.distinct(&op);
+            run.count(&format!("mnorm:degenerate-{mname}"));
         }
         let metric = Metric::from(raw);
         let pt = |i: usize, m: usize| build_hist(&[uni[i]], &[m]);
